@@ -49,7 +49,7 @@ func (supercard) Generate(r *rand.Rand, o Opts) *Statement {
 	n := rowCount(r)
 	for i := 0; i < n; i++ {
 		day += cal.Day(r.Intn(3))
-		amt := randCents(r)
+		amt := randCentsOrZero(r, st)
 		if amt.V >= 10000000 {
 			amt = Cents(amt.V % 10000000) // card purchases stay below 100'000; the format has no group separator
 			if amt.V == 0 {
